@@ -2,6 +2,7 @@ import IGVerif.Gen.Facts
 import IGVerif.Spec.Symbols
 import IGVerif.Proofs.DenoteLeaves
 import IGVerif.Proofs.ComboMulti
+import IGVerif.Proofs.ComboNorm
 /-! C01 — components and combinations are parsed exactly as written. -/
 namespace IGVerif.C01
 open IGVerif
@@ -103,6 +104,20 @@ theorem combination_parser_two_combinations (l m r : Option Str) (o₁ o₂ : Op
        ∧ Combo.toP n = denoteE [] [] (.multi2 l (.comb o₁ a₁ b₁) m (.comb o₂ a₂ b₂) r) :=
   ⟨_, Combo.parse_multi2 l m r o₁ o₂ a₁ b₁ a₂ b₂ ha₁ hb₁ ha₂ hb₂ hl hm hr nested fuel hf₁ hf₂,
     Combo.toP_multi2 l m r o₁ o₂ a₁ b₁ a₂ b₂ ha₁ hb₁ ha₂ hb₂⟩
+
+/-- **Round trip, chains anywhere.** `Combo.T` is the notation in which any parenthesised group,
+    at any depth, may be a chain of one operator (`Combo.rT` is its text; a node written without
+    its own parentheses may only be the left part of a group with the same operator, `Combo.wf`).
+    `detectCombinations` rewrites once per additional operand, always at the first repeated
+    operator in reading order (`Combo.rewrite_is_step`, `Combo.scan_wf`), until the text is fully
+    parenthesised; the parser then returns the tree in which every chain is nested to the left
+    and everything else is as written (`Combo.toE`), which is the documented meaning. -/
+theorem combination_parser_chains_anywhere (o : Op3) (l r : Combo.T) (hw : Combo.wf (.bin o true l r) none)
+    (nested : Bool) (fuel : Nat) (hf : Combo.depth (Combo.toE (.bin o true l r)) ≤ fuel) :
+    ∃ n, Combo.parse false fuel (Combo.rT (.bin o true l r)) nested
+          = .res ⟨n, renderE (Combo.toE (.bin o true l r)), Combo.cNoError⟩
+       ∧ Combo.toP n = denoteE [] [] (Combo.toE (.bin o true l r)) :=
+  ⟨_, Combo.parse_chains o l r hw nested fuel hf, Combo.toP_treeOf _ (Combo.wf_binw _ _ hw)⟩
 
 /-- a value without parentheses and brackets is one leaf -/
 theorem combination_parser_plain_value (t : Str) (h : Combo.Plain t) (nested : Bool) (fuel : Nat) :
